@@ -19,6 +19,7 @@ import StirVerif.C03.ProofsZ
 import StirVerif.C03.ProofsMisc
 import StirVerif.C03.ProofsLOR
 import StirVerif.C03.ProofsInterp
+import StirVerif.C03.ProofsGuard
 
 namespace StirVerif.C03
 
@@ -310,7 +311,43 @@ theorem C03_setup_other_index_range :
     ((PM.fresh pDefault : PM Bool Nat).run wRange none evsRange).map (fun x => (x.2.1.map Prod.fst, x.2.2.elems.map Prod.snd)) =
       [(some false, [0]), (some true, [1]), (some true, [1])] := by decide
 
+/-! ## the x/y voxel-size guard of the constructor; `set_up` for another geometry -/
+
+/-- "for every combination of enabled symmetries", image grids with "anisotropic voxels": **which symmetries the
+    constructor leaves in force does not depend on which of the x and y voxel sizes is the larger one** — the guard
+    `fabs(get_grid_spacing()[2] - get_grid_spacing()[3]) > 2.E-3F` (`float` subtraction included: `f32Round`) is symmetric
+    in the two sizes.  (The correspondence run evaluates this model of the guard on the voxel sizes of every generated
+    image — x larger than y, y larger than x, differences on both sides of the threshold — and compares the effective
+    switches with those the real constructor reports.) -/
+theorem C03_xy_guard_symmetric (f : Flags) (V : Int) (vy vx : Rat) (phi0 tof xy0 : Bool) :
+    f.effectiveVox V vy vx phi0 tof xy0 = f.effectiveVox V vx vy phi0 tof xy0 :=
+  effectiveVox_symm f V vy vx phi0 tof xy0
+
+/-- **the symmetries that exchange x and y are in force only for (nearly) equal x and y voxel sizes**: whenever the
+    constructor leaves `do_symmetry_90degrees_min_phi` on — whatever was requested, whatever the data — the two voxel
+    sizes differ by at most `2.E-3F` plus half a unit in the last place of their `float` difference (`2⁻³³` mm).
+    The bound is not 0: the geometric theorem `C03_lor_equivariant_findSymOp` needs `cx = cy` exactly
+    (`LorGeo.Agrees.square`); rows derived by the x/y exchanging operations for sizes that differ within the bound are
+    the known finding `unequal-xy-voxel-sizes-within-guard-tolerance:xy-exchanging-symmetry` of the oracle. -/
+theorem C03_xy_swap_only_for_near_square_voxels (f : Flags) (V : Int) (vy vx : Rat) (phi0 tof xy0 : Bool)
+    (h : (f.effectiveVox V vy vx phi0 tof xy0).d90 = true) : |vy - vx| ≤ twoEm3F + pow2 (-33) :=
+  squareVoxels_close vy vx (effectiveVox_d90 f V vy vx phi0 tof xy0 h)
+
+/-- "after ... setting the matrix up again for another geometry": **`set_up` for a geometry other than the one the object
+    is set up for never takes the "already set up with same characteristics" short cut** — however the two are related
+    (projection data contained in the previous ones in the sense of `ProjDataInfo::operator>=`, the previous ones
+    contained in the new ones, equal data and another image, …): afterwards the object holds the new geometry with the
+    current parameters and an empty cache, so by `C03_cache_refines` every later row is that of the new geometry.
+    A geometry is what `set_up` compares with the library's `==`; since the extension of the check the histories of the
+    correspondence run switch, on one object, between data with reduced axial / tangential / segment ranges and the
+    data that contain them (all rows after the second `set_up`, three cache modes). -/
+theorem C03_setUp_other_geometry_resets {G α : Type} [DecidableEq G] (w : World G α) (s s' : PM G α) (g : G)
+    (hne : ∀ g' p, s.active = some (g', p) → g' ≠ g) (h : s.setUp w g = .ok s') :
+    s'.active = some (g, s.params) ∧ s'.cache = [] ∧ s'.alreadySetup = true :=
+  setUp_other_geometry w s s' g hne h
+
 /-! ## non-vacuity -/
+
 
 /-- a symmetries object with all five switches on satisfies `WF`, and a bin with negative segment and tangential
     position, a view in (135°,180°) and a non-zero axial position satisfies the request hypotheses -/
@@ -420,5 +457,24 @@ example : yLorTof.WF ∧ yLorTof.d180 = false ∧ gLor.Agrees yLorTof ∧
 /-- two bins that differ in the sign of the tangential position only get different cache keys -/
 example : cacheKey ⟨0, 0, 3, 2, 0⟩ ≠ cacheKey ⟨0, 0, 3, -2, 0⟩ ∧ InBox ⟨0, 0, 3, -2, 0⟩ := by
   refine ⟨by decide, by decide, by decide, by decide⟩
+
+/-- equal voxel sizes pass the guard (90° symmetry stays on for 8 views), sizes 2.2 / 2 mm do not — whichever of the two
+    is the larger one; and the bound of `C03_xy_swap_only_for_near_square_voxels` holds with room for the first -/
+example : (Flags.effectiveVox ⟨true, true, true, true, true⟩ 8 2 2 true false true).d90 = true ∧
+    (Flags.effectiveVox ⟨true, true, true, true, true⟩ 8 (22 / 10) 2 true false true).d90 = false ∧
+    (Flags.effectiveVox ⟨true, true, true, true, true⟩ 8 2 (22 / 10) true false true).d90 = false ∧
+    (Flags.effectiveVox ⟨true, true, true, true, true⟩ 8 2 (22 / 10) true false true).d180 = true := by
+  have h1 : squareVoxels 2 2 = true := squareVoxels_self 2
+  have h2 : squareVoxels (22 / 10) 2 = false := squareVoxels_far _ _ (by rw [pow2_eq_zpow]; unfold twoEm3F; norm_num [abs_of_pos])
+  have h3 : squareVoxels 2 (22 / 10) = false := by rw [squareVoxels_symm]; exact h2
+  unfold Flags.effectiveVox
+  rw [h1, h2, h3]
+  decide
+
+/-- `set_up` for another geometry on an object with a row in its cache: the new geometry is installed, the cache is empty -/
+example : ((PM.fresh pDefault : PM Bool Nat).after (PM.step wRange) [.setUp false, .get ⟨0, 0, 0, 0, 0⟩, .setUp true]).map
+      (fun s => (s.active.map Prod.fst, s.cache.length)) = some (some true, 0) ∧
+    ((PM.fresh pDefault : PM Bool Nat).after (PM.step wRange) [.setUp false, .get ⟨0, 0, 0, 0, 0⟩]).map
+      (fun s => (s.active.map Prod.fst, s.cache.length)) = some (some false, 1) := by decide
 
 end StirVerif.C03
